@@ -1,0 +1,13 @@
+//go:build verif
+// +build verif
+
+package caching
+
+import (
+	apexlog "github.com/apex/log"
+	"github.com/apex/log/handlers/discard"
+)
+
+func verifDiscardLogger() *apexlog.Logger {
+	return &apexlog.Logger{Handler: discard.New(), Level: apexlog.FatalLevel}
+}
